@@ -13,7 +13,7 @@ One-directional fuzz: for randomly byte-mutated encodings, if the strict referen
 return the same roots; otherwise nothing is asserted (except termination under the CPU ceiling).
 """
 from hypothesis import strategies as st
-from harness.core import Sub, Fail, call, exc_sig
+from harness.core import HarnessError, Sub, Fail, call, exc_sig
 from harness.gen import dag, boccases
 from harness.ref import refcell as rc, refboc
 from harness.ref.refcrc import crc32c
@@ -155,12 +155,98 @@ def check_fuzz(case):
     except refboc.RefBocError:
         call(Cell.from_boc, mut)  # only termination (CPU ceiling) is checked
         return None
+    if any(rc.spec_invalid(c) for c in h['cells_list']):
+        call(Cell.from_boc, mut)
+        return None
     ok, got = call(Cell.from_boc, mut)
     if not ok:
         return Fail('mutated-valid-encoding-rejected', f'{exc_sig(got)}: {got!r}; boc={mut.hex()[:300]}')
     if [g.hash for g in got] != [r.repr_hash() for r in h['root_cells']]:
         return Fail('mutated-valid-encoding/roots-differ', f'boc={mut.hex()[:300]}')
     return None
+
+
+def check_raw(case):
+    """arbitrary bytes (Atheris campaign inputs replay through here): reference decoder accepts => the library returns the
+    same roots; in every case the parser stays within the operation budget of C19 (an overrun propagates as BudgetExceeded)"""
+    from pytoniq_core.boc.cell import Cell
+    from harness.opcount import counted
+    from harness.core import note
+    data = bytes.fromhex(case['raw'])
+    try:
+        h = refboc.decode_strict(data)
+    except refboc.RefBocError:
+        h = None
+    except Exception:                      # reference decoder gave up on garbage: no oracle for this input
+        note('raw:reference-decoder-exception')
+        h = None
+    ok, got, _ = counted(lambda: Cell.from_boc(data), 200 * len(data) + 600, 'from_boc-bytes')
+    if h is None:
+        return None
+    for c in h['cells_list']:
+        why = rc.spec_invalid(c)
+        if why:                                # well-framed bag holding a cell that is not a valid TON cell: no oracle
+            note('raw:framing-ok-but-cell-invalid')
+            return None
+    note('raw:reference-accepts')
+    if not ok:
+        return Fail('valid-encoding-rejected/raw', f'{exc_sig(got)}: {got!r}; boc={data.hex()[:300]}')
+    if [g.hash for g in got] != [r.repr_hash() for r in h['root_cells']]:
+        return Fail('valid-encoding/roots-differ/raw', f'boc={data.hex()[:300]}')
+    return None
+
+
+def _campaign_corpus():
+    specs = [
+        [{'k': 'o', 'b': '', 'r': []}],
+        [{'k': 'o', 'b': '10110', 'r': []}, {'k': 'o', 'b': '1' * 16, 'r': [0]}, {'k': 'o', 'b': '0' * 9, 'r': [1, 0, 1]}],
+        [{'k': 'o', 'b': '1' * 33, 'r': []}, {'k': 'p', 'of': 0, 'x': 0}, {'k': 'mp', 'r': 1}],
+        [{'k': 'P', 'm': 5, 's': '01020304', 'd': [1, 2]}, {'k': 'l', 's': 'aabbccdd'}, {'k': 'o', 'b': '101', 'r': [0, 1]}, {'k': 'mu', 'r': [2, 2]}],
+    ]
+    out = []
+    for spec in specs:
+        cells = dag.build_ref(spec)
+        n = len(rc.topo([cells[-1]]))
+        for kw in ({}, {'has_idx': True, 'has_crc': True}, {'has_idx': True, 'has_cache_bits': True}, {'magic': 'idx'}, {'magic': 'idx_crc'},
+                   {'size': 2, 'off_bytes': 3, 'with_hashes': set(range(n))}):
+            try:
+                out.append(refboc.encode([cells[-1]], **kw))
+            except Exception:
+                pass
+        out.append(refboc.encode([cells[-1], cells[0]], has_crc=True))
+    return out
+
+
+def check_campaign(case):
+    """one Atheris (libFuzzer, coverage-guided) campaign over Cell.from_boc with check_raw as the in-target oracle"""
+    from harness import fuzz
+    from harness.core import note
+    res = fuzz.run_campaign('C05', 'raw-bytes', case['runs'], case['seed'], _campaign_corpus(), max_len=case.get('max_len', 600),
+                            use_empty_corpus=case.get('empty_corpus', False))
+    if 'skipped' in res:
+        note('atheris:skipped (' + res['skipped'][:60] + ')')
+        return None
+    note('atheris:executions', res.get('execs', 0))
+    note('atheris:coverage-edges(last campaign)', res.get('cov', 0))
+    if res.get('found'):
+        f = res['found']
+        return Fail(f['signature'], f['detail'], replay=('raw-bytes', f['case']))
+    if res.get('target_error'):
+        raise HarnessError('fuzz target failed: ' + res['target_error'])
+    return None
+
+
+def enum_campaigns(tier):
+    from harness.core import SEED
+    for k in range(8):
+        yield {'runs': 120000, 'seed': SEED * 100 + k + 1, 'empty_corpus': k == 7, 'max_len': 600 if k % 2 == 0 else 200}
+
+
+def enum_raw(tier):
+    for b in _campaign_corpus():
+        yield {'raw': b.hex()}
+        yield {'raw': b[:-1].hex()}
+        yield {'raw': (b + b'\x00').hex()}
 
 
 def st_enc():
@@ -226,4 +312,9 @@ SUBCHECKS = [
     Sub('foreign-encodings', check_pos, strategy=strat_pos, classify=classify, nontrivial=nt, n=(1500, 40000), shards=(16, 32)),
     Sub('corruptions', check_neg, strategy=strat_neg, classify=classify, nontrivial=nt, n=(900, 20000), shards=(16, 32), case_cpu_s=60),
     Sub('byte-mutations-one-directional', check_fuzz, strategy=strat_fuzz, classify=classify, nontrivial=nt, n=(1500, 60000), shards=(8, 32)),
+    Sub('raw-bytes', check_raw, enum=enum_raw, shards=(2, 2), note='plain byte strings: the campaign corpus and its 1-byte truncations/extensions; '
+        'inputs found by the Atheris campaign replay through this sub-check'),
+    Sub('atheris-campaign', check_campaign, enum=enum_campaigns, shards=(8, 8), tiers=('thorough',), case_cpu_s=3600,
+        note='8 coverage-guided libFuzzer campaigns x 120000 executions (7 seeded with reference encodings, 1 from an empty corpus); '
+             'oracle = raw-bytes inside the target; executions are reported under classes atheris:executions'),
 ]
